@@ -1,0 +1,82 @@
+//go:build verif
+
+// Purpose: Verification hooks (sync points, id override) for instrumented builds.
+// Exports: none.
+// Role: Lets an external controller park the process at named points and choose ids.
+// Invariants: No-ops unless ERGO_VERIF_CTL / ERGO_VERIF_IDS are set.
+// Notes: Built only with -tags verif.
+package ergo
+
+import (
+	"bufio"
+	"fmt"
+	"net"
+	"os"
+	"strings"
+	"sync"
+)
+
+var (
+	verifOnce   sync.Once
+	verifConn   net.Conn
+	verifReader *bufio.Reader
+	verifFilter map[string]bool
+	verifIDs    []string
+	verifIDsSet bool
+)
+
+func verifInit() {
+	if spec := os.Getenv("ERGO_VERIF_IDS"); spec != "" {
+		verifIDs = strings.Split(spec, ",")
+		verifIDsSet = true
+	}
+	path := os.Getenv("ERGO_VERIF_CTL")
+	if path == "" {
+		return
+	}
+	if f := os.Getenv("ERGO_VERIF_POINTS"); f != "" {
+		verifFilter = map[string]bool{}
+		for _, p := range strings.Split(f, ",") {
+			verifFilter[p] = true
+		}
+	}
+	conn, err := net.Dial("unix", path)
+	if err != nil {
+		return
+	}
+	verifConn = conn
+	verifReader = bufio.NewReader(conn)
+	fmt.Fprintf(conn, "hello %d %s\n", os.Getpid(), os.Getenv("ERGO_VERIF_NAME"))
+}
+
+// verifPoint parks the process at a named point until the controller answers.
+func verifPoint(name string) {
+	verifOnce.Do(verifInit)
+	if verifConn == nil {
+		return
+	}
+	if verifFilter != nil {
+		base := name
+		if i := strings.IndexByte(name, ':'); i >= 0 {
+			base = name[:i]
+		}
+		if !verifFilter[base] {
+			return
+		}
+	}
+	if _, err := fmt.Fprintf(verifConn, "at %s\n", name); err != nil {
+		return
+	}
+	_, _ = verifReader.ReadString('\n')
+}
+
+// verifNextID returns the next forced id candidate, if any remain.
+func verifNextID() (string, bool) {
+	verifOnce.Do(verifInit)
+	if !verifIDsSet || len(verifIDs) == 0 {
+		return "", false
+	}
+	id := verifIDs[0]
+	verifIDs = verifIDs[1:]
+	return id, true
+}
